@@ -72,10 +72,12 @@ def rigid_case(chk, e, rng):
             chk.violation({"kind": "reaction", "grid": k3}, f"{type(grid).__name__} (case {e['cs']}): {er}", {"case": e["cs"], "error": er})
 
 
-def rod_case(chk, e, rng):
+def rod_case(chk, e, rng, dim2=False):
     kind = e["cs"]["kind"]
+    if not dim2 and kind in ("rod_elem", "rod_nodal") and e["cs"]["fc"] <= 2:
+        rod_case(chk, e, rng, dim2=True)        # the 2-D variants of these grids (in-plane force components)
     rod = bodies.make_rod(e)
-    grid, D = bodies.make_rod_grid(kind, rod, e)
+    grid, D = bodies.make_rod_grid(kind, rod, e, dim2)
     grid.compute_lag_grid_position_field()
     grid.compute_lag_grid_velocity_field()
     N = grid.num_lag_nodes
@@ -92,6 +94,8 @@ def rod_case(chk, e, rng):
             grid.transfer_forcing_from_grid_to_body(body_flow_forces=ff, body_flow_torques=tt, lag_grid_forcing_field=F)
             wf = np.array([bodies.vec(f) for f in e["nodef"]]).T
             wt = np.array([bodies.vec(t) for t in e["couple"]]).T
+            if dim2:
+                ff[2] = wf[2]      # a 2-D grid writes the in-plane components only
             if np.abs(ff - wf).max() > TOL:
                 errs.append(f"nodal forces differ from the specification by {np.abs(ff - wf).max():.3g}")
             if np.abs(tt - wt).max() > TOL:
@@ -116,9 +120,9 @@ def rod_case(chk, e, rng):
             if np.abs(lhs[comp] - rhs[comp]).max() > TOL * scale * 10:
                 errs.append(f"net moment about {about}: nodal forces + couples {lhs[comp]} != -marker moment {rhs[comp]}")
     chk.traces += 1
-    chk.count((kind, tlc.canon(e["cs"])))
+    chk.count((kind, dim2, tlc.canon(e["cs"])))
     for er in errs[:2]:
-        chk.violation({"kind": "reaction", "grid": kind}, f"{type(grid).__name__} (case {e['cs']}): {er}", {"case": e["cs"], "error": er})
+        chk.violation({"kind": "reaction", "grid": kind}, f"{type(grid).__name__} grid_dim={D} (case {e['cs']}): {er}", {"case": e["cs"], "error": er})
 
 
 def coupled_path(chk, rng, quick):
